@@ -53,6 +53,11 @@ def replay_one(job):
     variant %= 6
     src, templates, data, kw, eglob = c14.concretize(case, variant, reads="leaf" if leaf_only else "all")
     must = case["mustGlobalsLeaf"] if leaf_only else case["mustGlobals"]
+    names_ = sorted(case["prog"][0]["reads"])
+    if leaf_only and len(names_) > 1 and names_[1] in templates:
+        # the partial named after the second variable reads every name itself: its reads count like the leaf's
+        r = case["prog"][c14.concretize.named_step]
+        must = sorted(set(must) | {n for n in names_ if r["reads"][n]["layer"] in ("rargs", "matter", "tglobals", "eglobals") and n not in r["ex"]})
     filt = variant >= 3
     if filt:
         src = add_filter(src)
@@ -137,7 +142,10 @@ def run(tier: str) -> int:
     ck.cov["programs_visiting_the_shared_partial_twice"] = len(multi)
     jobs = [(c, 6 + (i % 6)) for i, c in enumerate(multi)] + \
            [(c, (i % 6) + (6 if nleaf(c) and i % 2 else 0)) for i, c in enumerate(rest)]
-    cases = multi + rest
+    # partials named like a variable and bound `with .. as alias` (two-name programs): reads only in that partial and in the leaf
+    named = [c for c in cases if len(c["prog"][0]["reads"]) > 1 and any(r["op"] in ("render", "include") and r["n"] == "a" and r["v"] != "nil" for r in c["prog"])]
+    jobs += [(c, 7 if i % 2 else 10) for i, c in enumerate(named)]
+    cases = multi + rest + named
     for (case, variant), (src, templates, problems) in zip(jobs, par.pmap(replay_one, jobs, chunk=128)):
         ck.case(("an", str(case["glob"]), str([(r["op"], r["n"]) for r in case["prog"]]), variant), nontrivial=bool(case["mustGlobals"]))
         ck.validated()
